@@ -299,7 +299,7 @@ pub(crate) fn check_repository<S: Open>(
 
     let index_be = GlobalIndex::new_from_index(index_collector.into_index());
 
-    let packs = check_trees(repo, be, &index_be, trees, &collector)
+    let (packs, used_blobs) = check_trees(repo, be, &index_be, trees, &collector)
         .map_err(|err| collector.add_error(CheckError::ErrorCheckingTrees { source: err }))
         .unwrap_or_default();
 
@@ -308,7 +308,14 @@ pub(crate) fn check_repository<S: Open>(
             .into_index()
             .into_iter()
             .filter(|p| !missing_packs.contains_key(&p.id))
-            .filter(|p| packs.contains(&p.id));
+            // read all packs which contain a used blob: if a blob is contained in several
+            // packs, any of them may be used when reading the blob
+            .filter(|p| {
+                packs.contains(&p.id)
+                    || p.blobs
+                        .iter()
+                        .any(|blob| used_blobs.contains(&(blob.tpe, blob.id)))
+            });
 
         debug!("using read-data-subset {:?}", opts.read_data_subset);
         let packs = opts.read_data_subset.apply(packs);
@@ -648,12 +655,16 @@ fn check_trees<S: Open>(
     index: &impl ReadGlobalIndex,
     snap_trees: Vec<TreeId>,
     collector: &CheckResultsCollector,
-) -> RusticResult<BTreeSet<PackId>> {
+) -> RusticResult<(BTreeSet<PackId>, BTreeSet<(BlobType, BlobId)>)> {
     let mut packs = BTreeSet::new();
+    // all blobs which are used: a blob may be contained in several packs and the index
+    // can point to any of them
+    let mut blobs = BTreeSet::new();
     // the packs which contain the root trees of the snapshots are used, too
     for id in &snap_trees {
         if let Some(entry) = index.get_tree(id) {
             _ = packs.insert(entry.pack);
+            _ = blobs.insert((BlobType::Tree, BlobId::from(**id)));
         }
     }
     let p = repo.progress_counter("checking trees...");
@@ -686,6 +697,7 @@ fn check_trees<S: Open>(
                                 }
                                 Some(entry) => {
                                     _ = packs.insert(entry.pack);
+                                    _ = blobs.insert((BlobType::Data, BlobId::from(**id)));
                                 }
                             }
                         }
@@ -711,6 +723,7 @@ fn check_trees<S: Open>(
                             }
                             Some(entry) => {
                                 _ = packs.insert(entry.pack);
+                                _ = blobs.insert((BlobType::Tree, BlobId::from(*id)));
                             }
                         }, // subtree is ok
                     }
@@ -720,7 +733,7 @@ fn check_trees<S: Open>(
         }
     }
 
-    Ok(packs)
+    Ok((packs, blobs))
 }
 
 /// Check if a pack is valid
